@@ -16,6 +16,12 @@ RULE = ("stream 1 (indentation only, no banner/macro start): exhaustive, every s
         "banner inside macro, unterminated stretches), x syntax x comment delimiters x ignore_blank_lines (25 %). The buckets "
         "'feat:*' count how many cases show each situation (overlap beyond the outer end, banner outliving a macro, indented closing "
         "line, line after a stretch whose indentation parent is a body line, ...). "
+        "Coverage stream (harness/covreport.py, notes/coverage/C02.json): one random case in eight of both streams is parsed under one more "
+        "parse option set -- config as a tuple, debug 1/2/4/5 (executes the 'if debug' statements of bootstrap, "
+        "_build_bootstrap_parent_child and _add_child_to_parent, debug >= 4 included), auto_commit=False, auto_indent_width 0/3/8 -- "
+        "none of which is an input of the model: the links must not change. 10-15 % of the random cases of both streams use a comment "
+        "delimiter set beyond the four standard ones (a letter, a brace, the euro sign, a tab or blank, duplicates, three at once, "
+        "banner delimiter characters). "
         "non-trivial = some line is indented or a banner / macro start is present; distinct by request.")
 LEVEL_TEXT = ("Theorems (Lean 4, all line lists, no size bound): cache_inv -- the parent cache of the bootstrap loop is sound (every cached "
               "entry k->p is the walk-back answer for indent k over the processed lines and 0 < k <= max_indent; holds initially, preserved "
@@ -43,7 +49,10 @@ LEVEL_TEXT = ("Theorems (Lean 4, all line lists, no size bound): cache_inv -- th
 LEVEL_NOTE = ("Trusted: Lean kernel, standard axioms, the harness. The per-line recognisers the specification is built from (isBannerStart, "
               "bannerDelim -- hand-written scanners for the two banner regexes, with \\w restricted to code points < 256 -- and isMacroStart) "
               "are modelled, not verified: the correspondence compares them with the real regexes on every run and the generator stays "
-              "inside that region. The typed-model factory is not modelled (links compared by the correspondence with factory on and off).")
+              "inside that region. The typed-model factory is not modelled (links compared by the correspondence with factory on and off). "
+              "Anchored statements never executed by the quick run: 29 of 150 before the option stream, 22 after (legacy keyword arguments "
+              "of BaseCfgLine.__init__, the children setter / type guard, is_comment of an object outside a config, bootstrap's argument "
+              "checks: direct-construction API outside the property; one optimised-away 'pass').")
 ASSUMPTIONS = ["banner type words use only word characters < U+0100 (generator-enforced)"]
 TRUSTED = ["hand-written scanners for the banner regexes"]
 EXHAUSTIVE = {"quick": True, "thorough": True}
@@ -86,8 +95,10 @@ def cases(rng, tier):
             k += 1
     n = {"quick": 1500, "thorough": 60000, "search": 4000}[tier]
     for _ in range(n):
-        delims = rng.choice(T.DELIM_SETS)
-        yield mk(rng.choice(T.SYNTAXES), rng.random() < 0.15, delims, rand_lines(rng, delims))
+        delims = rng.choice(T.DELIM_SETS) if rng.random() < 0.85 else rng.choice(T.EXOTIC_DELIM_SETS)
+        # one case in eight runs under one more parse option set (tuple config, debug 1..5, auto_commit off, auto_indent_width):
+        # the `if debug` statements of the anchored loop are executed and must not change the links
+        yield T.with_options(mk(rng.choice(T.SYNTAXES), rng.random() < 0.15, delims, rand_lines(rng, delims)), T.rand_options(rng, 0.125))
     # stream 2: banner / macro bodies
     if tier != "search":
         k = 0
@@ -96,10 +107,10 @@ def cases(rng, tier):
             k += 1
     n2 = {"quick": 2400, "thorough": 60000, "search": 4000}[tier]
     for k in range(n2):
-        delims = rng.choice(T.DELIM_SETS)
+        delims = rng.choice(T.DELIM_SETS) if rng.random() < 0.9 else rng.choice(T.EXOTIC_DELIM_SETS)
         lines = T.rand_link_config(rng, delims) if k % 2 == 0 else T.rand_nested_config(rng, delims)
-        yield mk(rng.choice(["ios", "ios"] + T.SYNTAXES), rng.random() < 0.1, delims, lines,
-                 "link-random" if k % 2 == 0 else "link-nested", rng.random() < 0.25)
+        yield T.with_options(mk(rng.choice(["ios", "ios"] + T.SYNTAXES), rng.random() < 0.1, delims, lines,
+                                "link-random" if k % 2 == 0 else "link-nested", rng.random() < 0.25), T.rand_options(rng, 0.125))
 
 
 def has_start(lines):
@@ -116,11 +127,11 @@ def neighbours(case, rng):
             ls.insert(rng.randrange(len(ls) + 1), rng.choice(T.LINK_TOKENS))
         else:
             ls.insert(rng.randrange(len(ls) + 1), rand_lines(rng, case["delims"])[0])
-        yield mk(case["syntax"], case["factory"], case["delims"], ls, "gen", case["ignore_blank"])
+        yield T.with_options(mk(case["syntax"], case["factory"], case["delims"], ls, "gen", case["ignore_blank"]), case.get("opts"))
 
 
 def impl(case):
-    return T.run_impl(case, T.dump_links)
+    return T.run_impl_opts(case, T.dump_links)
 
 
 def compare(case, impl_ans, model_ans):
@@ -153,14 +164,14 @@ def nontrivial(case):
 
 
 def describe(case):
-    return {k: case[k] for k in ("syntax", "factory", "ignore_blank", "delims", "lines")}
+    return {k: case[k] for k in ("syntax", "factory", "ignore_blank", "delims", "lines", "opts") if k in case}
 
 
 def buckets(case, ans):
     out = ["syntax:" + case["syntax"], "factory:%d" % case["factory"], "delims:" + str(case["delims"]),
            "len:%d" % min(41, len(case["lines"])), "origin:" + case.get("_origin", "gen"),
            "ignore_blank:%d" % case["ignore_blank"],
-           "answer:" + (ans if ans.startswith("err:") else "ok")]
+           "answer:" + (ans if ans.startswith("err:") else "ok")] + T.opt_buckets(case)
     if has_start(case["lines"]):
         kept = T.ref_kept(case["lines"], case["syntax"] == "ios", case["ignore_blank"])
         feats = T.link_features(kept, case["syntax"] == "ios", T.cfg_delims(case["syntax"], case["delims"]))
